@@ -71,7 +71,7 @@ CHECKS = {
    text="GluonCore.tla models snapshots, responder queues, update queues and the client-side mirror; TLC checks MirrorAgrees / SnapAscending / CountShrinksOnlyByExpunge on the model and generates behaviours; each is replayed on a real server over the wire with gated update delivery and the property's own predicate (client mirror built from the real untagged responses vs the real FETCH 1:* (UID FLAGS)) is evaluated at every probe and at quiescence; GluonMerge.tla: every well-formed stream of up to 3 (thorough 4) untagged responses is passed through the real response.Merge and must leave a client with the same knowledge",
    note=CORE_NOTE, technique="TLA+ spec + TLC simulation/model checking; gated replay on the real server; predicate on real wire data", design="DESIGN.md section 5 C01"),
  "C02": dict(level="model_checking",
-   text="GluonCore.tla: invariant Converges (quiescent => snapshot = authoritative view); TLC-generated behaviours are replayed with the update gate, driven to exact quiescence, and the long-lived session's FETCH is compared with a brand-new EXAMINE session; GluonPublish.tla: the commit and publish halves of two concurrent parties (two sessions, or a session and the connector) - every interleaving is forced on the real server with parking hooks between the two transactions and the observer is compared with a brand-new session",
+   text="GluonCore.tla: invariant Converges (quiescent => snapshot = authoritative view); TLC-generated behaviours are replayed with the update gate, driven to exact quiescence, and the long-lived session's FETCH is compared with a brand-new EXAMINE session; GluonPublish.tla: the commit and publish halves of two concurrent parties (two sessions, or a session and the connector) - every interleaving is forced on the real server with parking hooks between the two transactions and the observer is compared with a brand-new session; GluonQueue.tla: the QueuedChannel between writers and a session (Fifo, Conserved, NoLoss, PumpEnds model-checked; every behaviour of 4-5 external calls with batch sizes around the channel buffer and the slice capacity executed on the real queue)",
    note=CORE_NOTE, technique="TLA+ spec + TLC; gated replay with exact drain barrier; fresh-session oracle", design="DESIGN.md section 5 C02"),
  "C03": dict(level="model_checking",
    text="GluonCore.tla is the reference model of APPEND/STORE/EXPUNGE/UID EXPUNGE/CLOSE/COPY/MOVE; behaviours generated by TLC are replayed and after every state-changing step every mailbox is read through a brand-new session and compared with the model (UIDs, message identity, flags); status and UID predictions must match",
